@@ -18,6 +18,7 @@ fn gen_cfg(m: &HashMap<String, String>, focus: &str) -> GenCfg {
         fresh: m.contains_key("fresh"),
         only_fams: m.get("fams").map(|f| f.split(',').map(|x| x.to_string()).collect()).unwrap_or_default(),
         max_threads: geti(m, "max-threads", 0) as usize,
+        wide: geti(m, "wide", 0) as usize,
         focus: focus.to_string(),
         max_window: geti(m, "max-window", if focus == "wnaf" { 13 } else { 8 }) as usize,
         min_window: geti(m, "min-window", 2) as usize,
@@ -34,6 +35,7 @@ fn cfg_json(c: &GenCfg) -> J {
         .set("fresh", J::Bool(c.fresh))
         .set("only_fams", J::Arr(c.only_fams.iter().map(|f| J::s(f)).collect()))
         .set("max_threads", J::u(c.max_threads))
+        .set("wide", J::u(c.wide))
         .set("max_window", J::u(c.max_window))
         .set("min_window", J::u(c.min_window))
         .set("with_256", J::Bool(c.with_256))
@@ -43,6 +45,7 @@ fn cfg_from(j: &J) -> GenCfg {
         fresh: j.get("fresh").and_then(|x| x.as_bool()).unwrap_or(false),
         only_fams: j.get("only_fams").and_then(|x| x.as_arr()).map(|a| a.iter().filter_map(|x| x.as_str().map(|s| s.to_string())).collect()).unwrap_or_default(),
         max_threads: j.get("max_threads").and_then(|x| x.as_usize()).unwrap_or(0),
+        wide: j.get("wide").and_then(|x| x.as_usize()).unwrap_or(0),
         focus: j.get("focus").and_then(|x| x.as_str()).unwrap_or("c20").to_string(),
         max_window: j.get("max_window").and_then(|x| x.as_usize()).unwrap_or(8),
         min_window: j.get("min_window").and_then(|x| x.as_usize()).unwrap_or(2),
@@ -54,6 +57,9 @@ fn cfg_from(j: &J) -> GenCfg {
 }
 
 pub fn seeded_plan(seed: u64, idx: u64, cfg: &GenCfg) -> SchedPlan {
+    if cfg.wide > 0 {
+        return gen_wide(mix(seed, ENGINE_ID ^ 0x200, idx), idx as usize, cfg);
+    }
     gen_plan(mix(seed, ENGINE_ID ^ if cfg.focus == "wnaf" { 0x100 } else { 0 }, idx), cfg)
 }
 
@@ -366,17 +372,59 @@ pub fn cmd_sched(m: &HashMap<String, String>) -> i32 {
     let seed = geti(m, "seed", 1);
     let shard = geti(m, "shard", 0);
     let of = geti(m, "of", 1).max(1);
-    let total = geti(m, "runs", 1000);
+    let mut total = geti(m, "runs", 1000);
     let secs = geti(m, "secs", 0);
     let out = m.get("out").cloned().unwrap_or_else(|| "/dev/stdout".to_string());
     let replay_dir = m.get("replay-dir").cloned().unwrap_or_else(|| "/verif/replays".to_string());
     let property = m.get("property").cloned().unwrap_or_else(|| if focus == "wnaf" { "C02".into() } else { "C20".into() });
     let cfg = gen_cfg(m, &focus);
+    if cfg.wide > 0 && total == 0 {
+        // one wide scenario per operation kind of the allowed families
+        total = wide_kinds(&cfg).len() as u64;
+    }
     crate::ops::CLAIMS_ENABLED.store(focus == "wnaf", std::sync::atomic::Ordering::Relaxed);
     let selfcheck = m.contains_key("selfcheck");
     let known: Vec<String> = m.get("known").map(|k| k.split(';').filter(|x| !x.is_empty()).map(|x| x.to_string()).collect()).unwrap_or_default();
     let t0 = Instant::now();
     let deadline = if secs > 0 { Some(t0 + Duration::from_secs(secs)) } else { None };
+
+    if let Some(path) = m.get("write-crash-replay") {
+        // the driver saw this very command die from a signal while executing scenario `crash-index`
+        // (recorded in <out>.cur): write the replay file for it - the scenario as generated, behind the
+        // scenarios this shard ran before it
+        let idx = geti(m, "crash-index", 0);
+        let plan = seeded_plan(seed, idx, &cfg);
+        let mut pre = vec![];
+        let mut i = shard;
+        while i < idx {
+            pre.push(J::Int(i as i64));
+            i += of;
+        }
+        let v = SViolation {
+            invariant: CRASH_INVARIANT.into(),
+            thread: 0,
+            op_index: 0,
+            op: "".into(),
+            expected: "every library call returns and the process survives".into(),
+            observed: format!("the process was killed by signal {} while executing this scenario", m.get("crash-signal").cloned().unwrap_or_default()),
+        };
+        let rj = J::obj()
+            .set("format", J::Int(1))
+            .set("property", J::s(&property))
+            .set("engine", J::s("sched"))
+            .set("seed", J::Int(seed as i64))
+            .set("run_index", J::Int(idx as i64))
+            .set("gen_cfg", cfg_json(&cfg))
+            .set("violation", v.to_json())
+            .set("plan", plan.to_json())
+            .set("original_plan", plan.to_json())
+            .set("prelude_run_indices", J::Arr(pre));
+        if let Err(e) = std::fs::write(path, rj.pretty()) {
+            harness_error(&format!("cannot write {}: {}", path, e));
+        }
+        return 0;
+    }
+    let cur_marker = if out != "/dev/stdout" { Some(format!("{}.cur", out)) } else { None };
 
     // "fresh" mode: nothing of the library is exercised before the first scenario that is not needed
     let mut w = if cfg.fresh {
@@ -446,6 +494,9 @@ pub fn cmd_sched(m: &HashMap<String, String>) -> i32 {
             }
         }
         let plan = seeded_plan(seed, idx, &cfg);
+        if let Some(c) = &cur_marker {
+            let _ = std::fs::write(c, idx.to_string());
+        }
         STALL_SINK.with(|s| {
             *s.borrow_mut() = Some((format!("{}/{}-{}-stall{}.json", replay_dir, property, seed, idx), out.clone(), property.clone(), seed, idx as i64, cfg_json(&cfg)))
         });
@@ -552,8 +603,41 @@ pub fn cmd_sched(m: &HashMap<String, String>) -> i32 {
 }
 
 /// `pp-sim replay <file>` for engine "sched"
+pub const CRASH_INVARIANT: &str = "c20/no-crash-every-call-returns";
+
 pub fn replay(path: &str, j: &J, quiet: bool) -> i32 {
     let property = j.get("property").and_then(|e| e.as_str()).unwrap_or("?").to_string();
+    let recorded = j.get("violation").and_then(|v| v.get("invariant")).and_then(|x| x.as_str()).unwrap_or("").to_string();
+    if recorded == CRASH_INVARIANT && std::env::var("PP_SIM_CRASH_CHILD").is_err() {
+        // the recorded violation is the death of the process: re-execute in a child and look at how it ends
+        let exe = std::env::current_exe().unwrap();
+        let adopt = std::env::args().any(|a| a == "--adopt");
+        let st = std::process::Command::new(&exe).arg("replay").arg(path).arg("--quiet").env("PP_SIM_CRASH_CHILD", if adopt { "adopt" } else { "1" }).status();
+        use std::os::unix::process::ExitStatusExt;
+        return match st {
+            Ok(s) if s.signal().is_some() => {
+                if !quiet {
+                    println!("violated: {}: the process executing the scenario was killed by signal {}", CRASH_INVARIANT, s.signal().unwrap());
+                    println!("VIOLATION property={} replay={}", property, path);
+                }
+                1
+            }
+            Ok(s) if s.code() == Some(1) || s.code() == Some(3) => {
+                if !quiet {
+                    println!("a different violation occurred (recorded: the process was killed by a signal)");
+                    println!("VIOLATION property={} replay={}", property, path);
+                }
+                3
+            }
+            Ok(s) if s.code() == Some(0) => {
+                if !quiet {
+                    println!("replay of {}: no violation on this tree", path);
+                }
+                0
+            }
+            other => harness_error(&format!("replay child of {} ended unexpectedly: {:?}", path, other)),
+        };
+    }
     let plan = match j.get("plan").ok_or("no plan".to_string()).and_then(SchedPlan::from_json) {
         Ok(p) => p,
         Err(e) => harness_error(&format!("{}: {}", path, e)),
@@ -595,6 +679,14 @@ pub fn replay(path: &str, j: &J, quiet: bool) -> i32 {
     match r.violation {
         Some(v) => {
             let same = v.class() == want || want.is_empty();
+            if !same && recorded == CRASH_INVARIANT && std::env::var("PP_SIM_CRASH_CHILD").map(|x| x == "adopt").unwrap_or(false) {
+                // the driver saw the process die while executing this scenario; re-executed, the scenario
+                // ends with this (wrong result) instead: record what the replay file reproduces
+                let mut j2 = j.clone();
+                j2.put("violation", v.to_json());
+                j2.put("first_observed_as", J::s("the process executing this scenario was killed by a signal"));
+                let _ = std::fs::write(path, j2.pretty());
+            }
             if !quiet {
                 println!("violated: {} at thread {} op {} ({}): expected {}; observed {}", v.invariant, v.thread, v.op_index, v.op, v.expected, v.observed);
                 if !same {
